@@ -104,10 +104,22 @@ class ServerWorld:
                 serializer=serializer, **kwargs)
             self.sio.eio.start_background_task = self._start_task
             self.sio.eio.sleep = lambda seconds=0: None
+            self.sio.eio.create_event = self._create_event
         self.eio = self.sio.eio
         self.namer.wrap(self.eio, id_prefix)
         if setup:
             setup(self)
+
+    def _create_event(self, *args, **kwargs):
+        from .cworld import SeqEvent
+        return SeqEvent(self)
+
+    def on_wait(self, ev, timeout):
+        """A server thread waits on an unset event (call()): the world's
+        owner may let the environment act here."""
+        hook = getattr(self, 'wait_hook', None)
+        if hook:
+            hook(ev, timeout)
 
     # -- background tasks (threaded server, sequential worlds) -------------
     def _start_task(self, target, *args, **kwargs):
